@@ -997,9 +997,11 @@ class World:
             if after != before:
                 self.label('bad.rejected_after_partial_work')
                 self.nontrivial.add('partial')
-        # the reordering switch is not part of the statement for failed
-        # calls (see DESIGN section 4): follow whatever it is now
-        self.reordering = self.b.configure()['reordering']
+        # "subsequent operations ... behave normally": a rejected call
+        # must not switch dynamic reordering off (or on)
+        require(self.b.configure()['reordering'] == self.reordering,
+                'bad.reordering_switch_changed',
+                dict(kind=name, want=self.reordering))
         actual = [self.b._level_to_var.get(l)
                   for l in range(len(self.b.vars))]
         if sorted(map(str, actual)) == sorted(self.order):
